@@ -241,6 +241,14 @@ class PathCtx:
         res = None
         if r == z3.unsat:
             res = CheckResult(label, "proved", solver="z3", where=where)
+            eng.n_proved = getattr(eng, "n_proved", 0) + 1
+            rate = eng.cvc5_sample * (25 if eng.n_proved <= 600 else 1)
+            if eng.cvc5_sample and eng.rng.random() < rate:
+                # thorough tier: second opinion on a sample of the discharged obligations
+                c = _cvc5_check(s.to_smt2().replace("(check-sat)", ""), 20.0)
+                eng.cvc5_agree[c] = eng.cvc5_agree.get(c, 0) + 1
+                if c == "sat":
+                    res = CheckResult(label, "unknown", solver="z3+cvc5", where=where, reason="z3: unsat but cvc5: sat (back ends disagree)")
         elif r == z3.sat:
             model = self._small_model(s)
             res = CheckResult(label, "refuted", model=self.extract_model(model), solver="z3", where=where)
@@ -304,6 +312,11 @@ class Engine:
         self.use_cvc5 = use_cvc5
         self.worklist = []
         self.size_hints = {}
+        self.cvc5_sample = 0.0
+        self.cvc5_agree = {}
+        import random as _random
+
+        self.rng = _random.Random(12345)
 
     def push_work(self, prefix):
         self.worklist.append(prefix)
